@@ -144,7 +144,11 @@ def validity_check_oracle(ctx, per):
             if len(set(exprs.leaves(t))) > 3:
                 continue
             ind = ctx.rng.choice(["Muss ", "Soll", "K", "X", "u "])
-            s = ind + name
+            # the expression as a user writes it: either fully bracketed, or with only the brackets the documented precedence needs and every operator in
+            # a spelling of its own (letter in either case / symbol) -- the structure the criterion speaks about is the one the documentation fixes
+            from vlib.props import c05
+
+            s = ind + (name if ctx.rng.random() < 0.4 else c05.minimal(t, ctx.rng))
             tag, v = evalimpl.outcome(lambda: asyncio.run(is_valid_expression(s, var.set)))
             n += 1
             want = exprs.valid(t)
